@@ -358,3 +358,69 @@ for _kind in ('block', 'link'):
                 ("interaction_list = context.interactions.get(section, [])", "interaction_list = []"),
                 ("if context_type != 'link' and delete:", "if context_type == 'link' and delete:")],
     ))
+
+
+# ------------------------------------------------------------------ _parse_block_atom: the columns of a block's [ atoms ] line
+BlockAtom = TTuple(TStr, TStr, TStr, TInt, TInt, TOpt(TReal), TOpt(TReal), AttrD,
+                   names=['atomname', 'atype', 'resname', 'resid', 'charge_group', 'charge', 'mass', 'extra'])
+
+
+def setup_pba(cx):
+    from pyvc.builtins import list_append, contains
+    ga_world(cx)
+    tokens = cx.box('tokens', TSeq(TStr))
+    ATOMS = cx.heap('ATOMS', cx.box('ATOMS', TSeq(BlockAtom)))          # context.add_atom(...) calls, in order
+    names = cx.val('names', TSet(TStr))                                 # `name in context`: the atom names of the block
+    cx.spec_env['names'] = names
+    to_int = cx.uf('to_int', [TStr], TInt)                              # int(token) (ValueError for a non-number: not modelled)
+    to_float = cx.uf('to_float', [TStr], TReal)
+    cx.spec_env['int'] = Builtin(lambda e, x: SV(TInt, to_int(to_z3(x, TStr))), 'int')
+    cx.spec_env['float'] = Builtin(lambda e, x: SV(TReal, to_float(to_z3(x, TStr))), 'float')
+    cx.spec_env['collections'] = Obj('collections', ChainMap=Builtin(lambda e, first, second: ('chain', first, second), 'ChainMap'))
+
+    def dict_(e, x=None):
+        if isinstance(x, tuple) and x and x[0] == 'chain':
+            return Obj('merged', extra=x[1], base=x[2])
+        raise EngineError('dict() of this shape')
+    cx.spec_env['dict'] = Builtin(dict_, 'dict')
+
+    def add_atom(e, m):
+        base, extra = m.attrs['base'], m.attrs['extra']
+        ex = SV(AttrD, z3.Const('empty_AttrD', AttrD.sort())) if (isinstance(extra, Box) and extra.ty is None) else extra
+        cd = base.cd
+        list_append(e, ATOMS, (cd['atomname'], cd['atype'], cd['resname'], cd['resid'], cd['charge_group'],
+                               cd.get('charge'), cd.get('mass'), ex))
+    context = Obj('Block', add_atom=Builtin(add_atom, 'context.add_atom'), name=cx.val('block_name', TStr))
+    context.attrs['__contains__'] = Builtin(lambda e, n: contains(e, names, n), 'in block')
+    return dict(tokens=tokens, context=context)
+
+
+SPEC_PBA = {
+    'T': "lambda: old(tokens)",
+    'has_extra': "lambda: T()[len(T()) - 1].startswith('{')",
+    'ncol': "lambda: len(T()) - (1 if has_extra() else 0)",
+    'new': "lambda: ATOMS[len(old(ATOMS))]",
+}
+parse_block_atom = FunctionContract(
+    F, '_parse_block_atom', 'C13', setup=setup_pba, spec_defs=SPEC_PBA, spec_env=dict(AttrD=AttrD),
+    requires=["len(tokens) >= 1"],
+    ensures=[
+        # exactly one atom is added; its columns are: (index,) type, residue number, residue name, atom name, charge group
+        # [, charge [, mass]] and an optional trailing attribute dictionary
+        "len(ATOMS) == len(old(ATOMS)) + 1 and ncol() >= 6",
+        "new().atype == T()[1] and new().resid == to_int(T()[2]) and new().resname == T()[3] and new().atomname == T()[4] and "
+        "new().charge_group == to_int(T()[5])",
+        "(new().charge is None) == (ncol() == 6) and implies(ncol() > 6, new().charge == to_float(T()[6]))",
+        "(new().mass is None) == (ncol() <= 7) and implies(ncol() > 7, new().mass == to_float(T()[7]))",
+        "new().extra == (parse_attr(T()[len(T()) - 1]) if has_extra() else EMPTY)",
+        # an atom name that the block already has is rejected
+        "not (T()[4] in names)",
+        "forall(lambda k: implies(0 <= k and k < len(old(ATOMS)), ATOMS[k] == old(ATOMS)[k]))",
+    ],
+    raises={'OSError': ["ncol() >= 6 and T()[4] in names", "len(ATOMS) == len(old(ATOMS))"],
+            'IndexError': ["ncol() < 6", "len(ATOMS) == len(old(ATOMS))"]},
+    modifies=['tokens', 'ATOMS'],
+    canary=[("_, atype, resid, resname, name, charge_group = first_six", "_, atype, resid, name, resname, charge_group = first_six"),
+            ("atom['mass'] = float(tokens.popleft())", "atom['mass'] = atom['charge']")],
+)
+CONTRACTS.append(parse_block_atom)
